@@ -97,3 +97,10 @@ Lemma valid_swap c s : valid c (swap s) = valid c s.
 Proof. destruct c, s as [[] [] [] [] [] []]; reflexivity. Qed.
 Lemma adm_swap f c s : adm f c (swap s) = adm f c s.
 Proof. destruct f, c, s as [[] [] [] [] [] []]; reflexivity. Qed.
+
+(* ---- outcome types of the tables generated from /repo (Gen/Gen_Codecs.v) *)
+Inductive enc_out := ENA | ESkip | ERaise | EStale | EPair (x y : Z).
+(* Add rev layer: graph.add_edge(u,v,layer) (rev=false) or add_edge(v,u,layer); layers 0 directed 1 bidirected 2 undirected 3 circle *)
+Inductive op := Add (rev : bool) (layer : nat).
+Inductive dec_out := DRaise | DOps (l : list op).
+Inductive str_out := SNA | SSkip | SRaise | SStale | SStr (chars : list nat).
